@@ -32,9 +32,12 @@ Carriers2 == {<< <<0,0,1>>, <<1,0,0>> >>, << <<1,2,1>>, <<1,1,0>> >>, << <<0,1,1
               << <<2,0,1>>, <<-1,3,1>> >>, << <<1,1,2>>, <<3,-1,2>> >>}
 \* every line of the lattice with coefficients in -1..1 (the coordinate axes, the diagonals, ...) as <<finite lattice point, direction>>
 CarrierOf(l) == LET a == CHOOSE p \in {<<x, y, 1>> : x \in -2..2, y \in -2..2} : Dot(l, p) = 0 IN <<a, <<l[2], -l[1], 0>> >>
-AllCarriers2 == Carriers2 \cup {CarrierOf(l) : l \in {h \in Classes(3, 1) : ~(h[1] = 0 /\ h[2] = 0)}}
+\* carriers whose points have dyadic (quarter, eighth) Cartesian coordinates close to the origin
+Dyadic2 == {<< <<0,1,4>>, <<1,0,0>> >>, << <<1,1,8>>, <<-3,5,8>> >>, << <<0,2,8>>, <<3,0,8>> >>, << <<3,-1,4>>, <<1,2,0>> >>}
+AllCarriers2 == Carriers2 \cup Dyadic2 \cup {CarrierOf(l) : l \in {h \in Classes(3, 1) : ~(h[1] = 0 /\ h[2] = 0)}}
 Carriers3 == {<< <<0,0,0,1>>, <<1,0,0,0>> >>, << <<1,2,0,1>>, <<1,1,1,0>> >>, << <<0,1,1,1>>, <<2,-1,0,1>> >>, << <<1,0,2,1>>, <<0,1,-1,1>> >>}
 Carriers1 == {<< <<0,1>>, <<1,0>> >>, << <<1,1>>, <<1,-1>> >>, << <<2,1>>, <<1,3>> >>}
+Vertices3 == {<<0,0,0,1>>, <<1,2,3,1>>, <<0,0,2,1>>, <<3,0,0,1>>, <<-1,1,1,2>>, <<0,1,0,0>>, <<1,1,1,0>>}
 Vertices2 == {<<0,0,1>>, <<0,3,1>>, <<2,0,1>>, <<-1,-2,1>>, <<3,1,1>>, <<1,-1,0>>, <<0,1,0>>, <<5,2,2>>}
 
 Init == pc = "start" /\ task \in Tasks /\ first = <<>> /\ res = [t |-> "none"]
@@ -42,6 +45,7 @@ Choose ==
   /\ pc = "start" /\ pc' = "chosen" /\ UNCHANGED <<task, res>>
   /\ \/ task \in {"pts1", "pts2", "pts3", "harm"} /\ \E x \in Params : first' = x
      \/ task = "lines" /\ \E v \in Vertices2 : first' = v
+     \/ task = "lines3" /\ \E v \in Vertices3 : first' = v
      \/ task = "planes" /\ \E c \in Carriers3 : first' = c
      \/ task = "frompt" /\ \E v \in Vertices2 : first' = v
      \/ task = "err" /\ \E d \in {2, 3} : first' = <<d>>
@@ -58,6 +62,13 @@ Compute ==
              /\ Keep(q[1] \o q[2] \o q[3] \o q[4] \o c[1], 2 * Stride)
              /\ Det3(<<first, c[1], c[2]>>) # 0
              /\ res' = [t |-> "lines", v |-> first, q |-> q, ls |-> [i \in 1..4 |-> Cross(first, PtAt(c[1], c[2], q[i]))],
+                        cr |-> CR(q[1], q[2], q[3], q[4])]
+     \/ /\ task = "lines3"       \* four concurrent (hence coplanar) lines of space through the vertex and four points of a carrier
+        /\ \E q \in Quads, c \in Carriers3 :
+             /\ Keep(q[1] \o q[2] \o q[3] \o q[4] \o c[1], 2 * Stride)
+             /\ (\E C \in kSubset(3, 1..4) : LET cs == SetToSortSeq(C, <) IN
+                    Det3([i \in 1..3 |-> [j \in 1..3 |-> <<first, c[1], c[2]>>[i][cs[j]]]]) # 0)     \* the vertex is not on the carrier
+             /\ res' = [t |-> "lines3", v |-> first, q |-> q, pts |-> [i \in 1..4 |-> PtAt(c[1], c[2], q[i])],
                         cr |-> CR(q[1], q[2], q[3], q[4])]
      \/ /\ task = "planes"       \* four planes through an axis (two lattice points) and four points of the carrier
         /\ \E q \in Quads, A \in {<<0,0,0,1>>, <<0,0,1,1>>, <<1,1,0,1>>, <<1,0,0,0>>}, B \in {<<0,0,1,0>>, <<0,1,0,1>>, <<2,1,1,1>>} :
@@ -129,6 +140,8 @@ HarmonicIsMinusOne == (Done /\ res.t = "harm") => CR(res.q[1], res.q[2], res.q[3
 Stratum ==
   CASE res.t = "err" -> (IF res.coll THEN "collinear" ELSE "not-collinear")
     [] res.t = "harm" -> (IF \E i \in 1..3 : res.q[i] = <<1, 0>> THEN "param-infinity" ELSE IF \E i \in 1..3 : res.q[i] = <<0, 1>> THEN "param-origin" ELSE "general")
+    [] res.t = "lines3" -> (IF res.v[4] = 0 THEN "vertex-at-infinity" ELSE IF res.v[1] = 0 /\ res.v[2] = 0 /\ res.v[3] = 0 THEN "vertex-origin"
+                            ELSE IF Cardinality({res.q[i] : i \in 1..4}) < 4 THEN "repeated-line" ELSE "general")
     [] res.t = "lines" -> (IF res.v[3] = 0 THEN "vertex-at-infinity" ELSE IF res.v[1] = 0 /\ res.v[2] = 0 THEN "vertex-origin"
                            ELSE IF res.v[1] = 0 THEN "vertex-on-y-axis" ELSE IF res.v[2] = 0 THEN "vertex-on-x-axis" ELSE "general")
     [] OTHER -> (IF Cardinality({res.q[i] : i \in 1..4}) < 4 THEN "repeated-point"
